@@ -3,15 +3,16 @@
 (* carried as state (total verdicts) and read from the dump.                                 *)
 EXTENDS Centering, Json, IOUtils
 Trace == JsonDeserialize(IOEnv.TRACE_FILE)
-VARIABLES i, ph, failed, scope, triggers, drift, checked
-vars == <<i, ph, failed, scope, triggers, drift, checked>>
+VARIABLES i, ph, failed, scope, triggers, drift, checked, undecided
+vars == <<i, ph, failed, scope, triggers, drift, checked, undecided>>
 Init == /\ i \in 1..Len(Trace) /\ ph = "call"
-        /\ failed = {} /\ scope = TRUE /\ triggers = {} /\ drift = FALSE /\ checked = {}
+        /\ failed = {} /\ scope = TRUE /\ triggers = {} /\ drift = FALSE /\ checked = {} /\ undecided = {}
 Next == /\ ph = "call" /\ ph' = "ret" /\ UNCHANGED i
         /\ LET r == Trace[i] IN
            /\ scope' = Premise(r)
            /\ checked' = IF scope' THEN Clauses(r.op) ELSE {}
-           /\ failed' = {c \in checked' : ~Holds(c, r)}
+           /\ undecided' = IF scope' THEN Undecided(r) ELSE {}        \* a tied mode (Centering.Undecided)
+           /\ failed' = {c \in checked' \ undecided' : ~Holds(c, r)}
            /\ triggers' = {t \in KnownTriggers : TriggerHolds(t, r)}
            /\ drift' = (scope' /\ failed' = {} /\ Drift(r))
 Spec == Init /\ [][Next]_vars
